@@ -45,7 +45,7 @@ pub fn jobs(seed: u64, thorough: bool, bad_only: bool) -> Vec<Job> {
                 let prec = rand_prec(d, &mut s, 3.0);
                 let init: Vec<f64> = (0..d).map(|_| (splitmix(&mut s) % 3000) as f64 / 1000.0 - 1.5).collect();
                 let (raw, panic) = run_chain::<B64, f64, _>(GaussP { prec: prec.clone() }, init.clone(), 0.8, sd, &[(steps.0, steps.1)], None);
-                out.push(Job { label: format!("gaussP{d}/f64"), raw, panic, own: OwnN::GaussP { prec: prec.clone() }, tol: 1e-7 });
+                out.push(Job { label: format!("gaussP{d}/f64"), raw, panic, own: OwnN::GaussP { prec: prec.clone() }, tol: 1e-11 });
                 let (raw, panic) = run_chain::<B32, f32, _>(GaussP { prec: prec.clone() }, init.iter().map(|v| *v as f32 as f64).collect(), 0.65, sd + 1, &[(steps.0, steps.1)], None);
                 let p32: Vec<Vec<f64>> = prec.iter().map(|r| r.iter().map(|v| *v as f32 as f64).collect()).collect();
                 out.push(Job { label: format!("gaussP{d}/f32"), raw, panic, own: OwnN::GaussP { prec: p32 }, tol: 5e-4 });
@@ -55,13 +55,13 @@ pub fn jobs(seed: u64, thorough: bool, bad_only: bool) -> Vec<Job> {
             out.push(Job { label: "gauss2lib/f32".into(), raw, panic,
                 own: OwnN::Gauss2Lib { mean: [mean[0] as f64, mean[1] as f64], cov: [[cov[0][0] as f64, cov[0][1] as f64], [cov[1][0] as f64, cov[1][1] as f64]] }, tol: 5e-4 });
             let (raw, panic) = run_chain::<B64, f64, _>(Rosenbrock2D::<f64> { a: 1.0, b: 10.0 }, vec![0.2, 0.1], 0.8, sd + 3, &[(steps.0, steps.1)], None);
-            out.push(Job { label: "rosen2/f64".into(), raw, panic, own: OwnN::Rosen2 { a: 1.0, b: 10.0 }, tol: 1e-7 });
+            out.push(Job { label: "rosen2/f64".into(), raw, panic, own: OwnN::Rosen2 { a: 1.0, b: 10.0 }, tol: 1e-11 });
             let (raw, panic) = run_chain::<B64, f64, _>(Funnel, vec![0.0, 0.5, -0.5, 0.2], 0.8, sd + 4, &[(steps.0, steps.1)], None);
-            out.push(Job { label: "funnel4/f64".into(), raw, panic, own: OwnN::Funnel, tol: 1e-7 });
+            out.push(Job { label: "funnel4/f64".into(), raw, panic, own: OwnN::Funnel, tol: 1e-11 });
             // deep trees: tiny forced step size on a wide Gaussian, no warm-up (step size frozen after the first transition)
             let wide = vec![vec![0.01]];
             let (raw, panic) = run_chain::<B64, f64, _>(GaussP { prec: wide.clone() }, vec![0.3], 0.8, sd + 5, &[(3, 0)], Some(0.02));
-            out.push(Job { label: "deep-tree/f64".into(), raw, panic, own: OwnN::GaussP { prec: wide }, tol: 1e-7 });
+            out.push(Job { label: "deep-tree/f64".into(), raw, panic, own: OwnN::GaussP { prec: wide }, tol: 1e-11 });
             // cliffs without forces: scripted slice holes / isolated admissible points / divergence walls along straight trajectories
             for (k, (cell, levels, omega2, eps0)) in [
                 (1.5, vec![0.0, -0.7, 0.0, -30.0, 0.0, 0.0, -1.5, 0.0], 0.25, 0.3),
@@ -70,45 +70,45 @@ pub fn jobs(seed: u64, thorough: bool, bad_only: bool) -> Vec<Job> {
             ].into_iter().enumerate() {
                 let t = Cliffs { cell, levels: levels.clone(), omega2, kappa: 0.02 };
                 let (raw, panic) = run_chain::<B64, f64, _>(t, vec![0.3 * cell, 0.4], 0.8, sd + 20 + k as u64, &[(steps.0 + 14, 0)], Some(eps0));
-                out.push(Job { label: format!("cliffs{k}/f64"), raw, panic, own: OwnN::Cliffs { cell, levels, omega2, kappa: 0.02 }, tol: 1e-7 });
+                out.push(Job { label: format!("cliffs{k}/f64"), raw, panic, own: OwnN::Cliffs { cell, levels, omega2, kappa: 0.02 }, tol: 1e-11 });
             }
             // far out in the tail: the first leaves gain thousands of units of log-density -- far ABOVE the slice level, which is
             // not a divergence (the bound of 1000 is one-sided); forced step sizes around 1 and the start-up heuristic
             for (k, (x0, eps0)) in [(150.0, Some(1.0)), (-220.0, Some(0.7)), (120.0, None)].into_iter().enumerate() {
                 let unit = vec![vec![1.0, 0.0], vec![0.0, 1.0]];
                 let (raw, panic) = run_chain::<B64, f64, _>(GaussP { prec: unit.clone() }, vec![x0, -0.5 * x0], 0.8, sd + 30 + k as u64, &[(6, 0)], eps0);
-                out.push(Job { label: format!("far-tail{k}/f64"), raw, panic, own: OwnN::GaussP { prec: unit }, tol: 1e-7 });
+                out.push(Job { label: format!("far-tail{k}/f64"), raw, panic, own: OwnN::GaussP { prec: unit }, tol: 1e-11 });
             }
             {
                 let (cell, levels, omega2) = (1.2, vec![0.0, 0.0, 1500.0, 0.0, 0.0, 3200.0, 3200.0, 0.0], 0.1);
                 let t = Cliffs { cell, levels: levels.clone(), omega2, kappa: 0.02 };
                 let (raw, panic) = run_chain::<B64, f64, _>(t, vec![0.3 * cell, 0.4], 0.8, sd + 40, &[(steps.0 + 6, 0)], Some(0.4));
-                out.push(Job { label: "cliffs-up/f64".into(), raw, panic, own: OwnN::Cliffs { cell, levels, omega2, kappa: 0.02 }, tol: 1e-7 });
+                out.push(Job { label: "cliffs-up/f64".into(), raw, panic, own: OwnN::Cliffs { cell, levels, omega2, kappa: 0.02 }, tol: 1e-11 });
             }
             // immediate U-turn: very narrow Gaussian, big forced step
             let narrow = vec![vec![400.0, 0.0], [0.0, 400.0].to_vec()];
             let (raw, panic) = run_chain::<B64, f64, _>(GaussP { prec: narrow.clone() }, vec![0.01, -0.02], 0.8, sd + 6, &[(6, 0)], Some(0.09));
-            out.push(Job { label: "uturn-now/f64".into(), raw, panic, own: OwnN::GaussP { prec: narrow }, tol: 1e-7 });
+            out.push(Job { label: "uturn-now/f64".into(), raw, panic, own: OwnN::GaussP { prec: narrow }, tol: 1e-11 });
         }
         // divergences: energy error above 1000 after one step
         let (raw, panic) = run_chain::<B64, f64, _>(Steep { c: 1e3 }, vec![0.5, -0.4], 0.8, sd + 7, &[(6, 0)], Some(0.5 + rep as f64));
-        out.push(Job { label: "steep-divergent/f64".into(), raw, panic, own: OwnN::Steep { c: 1e3 }, tol: 1e-7 });
+        out.push(Job { label: "steep-divergent/f64".into(), raw, panic, own: OwnN::Steep { c: 1e3 }, tol: 1e-11 });
         let (raw, panic) = run_chain::<B32, f32, _>(Steep { c: 1e3 }, vec![0.5, -0.4], 0.8, sd + 8, &[(steps.0, steps.1)], None);
         out.push(Job { label: "steep/f32".into(), raw, panic, own: OwnN::Steep { c: 1e3 }, tol: 5e-4 });
         // NaN region (log of a negative number) and -inf boundary
         let (raw, panic) = run_chain::<B64, f64, _>(HalfLineN, vec![0.7, 1.5], 0.8, sd + 9, &[(steps.0, steps.1)], None);
-        out.push(Job { label: "halfline/f64".into(), raw, panic, own: OwnN::HalfLine, tol: 1e-7 });
+        out.push(Job { label: "halfline/f64".into(), raw, panic, own: OwnN::HalfLine, tol: 1e-11 });
         let (raw, panic) = run_chain::<B64, f64, _>(HalfLineN, vec![0.7, 1.5], 0.8, sd + 10, &[(8, 0)], Some(3.0));
-        out.push(Job { label: "halfline-bigstep/f64".into(), raw, panic, own: OwnN::HalfLine, tol: 1e-7 });
+        out.push(Job { label: "halfline-bigstep/f64".into(), raw, panic, own: OwnN::HalfLine, tol: 1e-11 });
         let (raw, panic) = run_chain::<B64, f64, _>(HalfLineN, vec![0.7, 1.5], 0.8, sd + 11, &[(4, 0)], Some(1e200));
-        out.push(Job { label: "halfline-overflow/f64".into(), raw, panic, own: OwnN::HalfLine, tol: 1e-7 });
+        out.push(Job { label: "halfline-overflow/f64".into(), raw, panic, own: OwnN::HalfLine, tol: 1e-11 });
         // uniform box written as a masked constant (no gradient entry in the graph), start-up heuristic and forced step
         let (raw, panic) = run_chain::<B64, f64, _>(BoxN, vec![0.3, 0.6], 0.8, sd + 12, &[(steps.0, steps.1)], None);
-        out.push(Job { label: "box/f64".into(), raw, panic, own: OwnN::BoxU, tol: 1e-7 });
+        out.push(Job { label: "box/f64".into(), raw, panic, own: OwnN::BoxU, tol: 1e-11 });
         let (raw, panic) = run_chain::<B32, f32, _>(BoxN, vec![0.3, 0.6], 0.8, sd + 13, &[(6, 0)], Some(0.15));
         out.push(Job { label: "box/f32".into(), raw, panic, own: OwnN::BoxU, tol: 5e-4 });
         let (raw, panic) = run_chain::<B64, f64, _>(BoxLeafN, vec![0.3, 0.6], 0.8, sd + 14, &[(6, 2)], None);
-        out.push(Job { label: "boxleaf/f64".into(), raw, panic, own: OwnN::BoxU, tol: 1e-7 });
+        out.push(Job { label: "boxleaf/f64".into(), raw, panic, own: OwnN::BoxU, tol: 1e-11 });
     }
     out
 }
